@@ -366,6 +366,21 @@ func init() {
 				}
 			}
 		}
+		// (2c) years that differ in one bit, decoded back to back in one process: whatever a decoder
+		// remembers about the year it has just seen (a month length, a leap flag) must not answer for
+		// a year that shares only some of its bits
+		if d.Shard == 0 {
+			for _, base := range []int{2024, 2023, 1900, 2000, 2100, 0, -4, -100} {
+				for k := 2; k <= 30; k++ {
+					for _, y2 := range []int{base + 1<<uint(k), base - 1<<uint(k), base ^ 1<<uint(k)} {
+						for _, dd := range []int{29, 28} {
+							unbin(append(append([]byte{1}, yb(base)...), 2, byte(dd)), pre)
+							unbin(append(append([]byte{1}, yb(y2)...), 2, byte(dd)), pre)
+						}
+					}
+				}
+			}
+		}
 		for i, y := range []int{-999999996, -999999900, -999999600, 999999600, 999999900, 999999996, 100000, 123456700, 400000000, 2147483600, -2147483600, 2147483647, -2147483648} {
 			if d.Mine(i) {
 				for _, md := range [][2]int{{2, 28}, {2, 29}, {2, 30}, {4, 31}, {12, 31}, {1, 0}, {0, 1}, {13, 1}} {
@@ -676,6 +691,33 @@ func init() {
 					}
 					d.Do(Ev{"op": "date.fcontains", "i": 1, "p": win[k%len(win)], "st": 1})
 					d.Do(Ev{"op": "date.fcontains", "i": 1, "p": win[(k+1)%len(win)], "st": 1})
+				}
+				d.S.Boundary()
+			}
+		}
+		// every day of a year as the lower (then the upper) bound of a filter whose other bound stays
+		// the same, one filter after the other in one process, each asked about its bound and the two
+		// days around it: filters built earlier must not answer for one built later
+		if d.Shard == 0 {
+			var year [][]int
+			for m := 1; m <= 12; m++ {
+				for dd := 1; dd <= daysIn(2021, m); dd++ {
+					year = append(year, []int{2021, m, dd})
+				}
+			}
+			for side := 0; side < 2; side++ {
+				for i := 1; i+1 < len(year); i++ {
+					ft := [2][]int{year[i], {2021, 12, 31}}
+					if side == 1 {
+						ft = [2][]int{{2021, 1, 1}, year[i]}
+					}
+					d.Do(Ev{"op": "date.freset", "st": 1})
+					d.Do(Ev{"op": "date.vars", "from": ft[0], "to": ft[1], "st": 1})
+					if e := d.Do(Ev{"op": "date.fbuild", "same": false, "st": 1}); e["ok"] == true {
+						for _, q := range [][]int{year[i-1], year[i], year[i+1]} {
+							d.Do(Ev{"op": "date.fcontains", "i": 1, "p": q, "st": 1})
+						}
+					}
 				}
 				d.S.Boundary()
 			}
